@@ -267,5 +267,9 @@ def _gc_facts(keep=12):
     if not d.exists():
         return
     ents = sorted([p for p in d.iterdir() if p.is_dir()], key=lambda p: p.stat().st_mtime, reverse=True)
+    now = time.time()
     for p in ents[keep:]:
-        shutil.rmtree(p, ignore_errors=True)
+        # never under a reader's feet: checks running in parallel (corpus runs) may still be loading an entry that was
+        # extracted a moment ago
+        if now - p.stat().st_mtime > 900:
+            shutil.rmtree(p, ignore_errors=True)
